@@ -1,5 +1,4 @@
 import sys
-from functools import lru_cache
 
 from xlcalculator.xlfunctions import xl, func_xltypes
 
@@ -8,9 +7,14 @@ from . import ast_nodes, xltypes
 
 class EvaluatorContext(ast_nodes.EvalContext):
 
-    def __init__(self, evaluator, ref):
-        super().__init__(evaluator.namespace, ref)
+    def __init__(self, evaluator, ref, seen=None):
+        # `seen` is the chain of cells currently being evaluated; it is
+        # shared with the contexts of the cells this one depends on.
+        super().__init__(evaluator.namespace, ref, seen)
         self.evaluator = evaluator
+        # Values of the cells referenced by this formula. (Lives and dies
+        # with the context, unlike a cache on the method.)
+        self._values = {}
 
     @property
     def cells(self):
@@ -20,15 +24,21 @@ class EvaluatorContext(ast_nodes.EvalContext):
     def ranges(self):
         return self.evaluator.model.ranges
 
-    @lru_cache(maxsize=None)
     def eval_cell(self, addr):
+        if addr in self._values:
+            return self._values[addr]
         # Check for a cycle.
-        if addr in self.seen:
+        if addr in self.seen or addr == self.ref:
             raise RuntimeError(
                 f'Cycle detected for {addr}:\n- ' + '\n- '.join(self.seen))
         self.seen.append(addr)
-
-        return self.evaluator.evaluate(addr, None)
+        try:
+            value = self.evaluator.evaluate(
+                addr, EvaluatorContext(self.evaluator, addr, self.seen))
+        finally:
+            self.seen.pop()
+        self._values[addr] = value
+        return value
 
 
 class Evaluator:
